@@ -13,7 +13,7 @@ LEVEL = {
 }
 
 # properties whose obligations are generated in interference mode as well
-INTF = {'C02', 'C06'}
+INTF = {'C05', 'C06'}
 
 
 def contract_tags(con):
@@ -50,6 +50,8 @@ def counts_for(pid, tags):
     t = set(tags)
     if pid in t or t <= {'AUX', 'SAFE', 'FRAME'}:
         return True
+    if pid == 'C02' and (t & {'C01', 'C05'}):
+        return True
     if pid == 'C12' and (t & FUNCTIONAL):
         return True
     return False
@@ -62,21 +64,30 @@ def contract_modes(con):
     return modes
 
 
+def is_cache_method(con):
+    return con.fn is not None and ('.xsyncMap)' in con.fn or '.xsyncMapOf[' in con.fn)
+
+
 def tasks_for(pid, spec, tier):
+    """(contract target, mode) pairs whose obligations serve the property.  Interference mode (every call on the shared
+    map is one atomic action with arbitrary environment steps in between) is used for the cache-layer methods: all of
+    them for C02, those with C05 / C06 clauses additionally for those properties."""
     tasks = []
     for tgt, con in spec.sf.contracts.items():
         if con.fn is None:
             continue
         if any(c.kind == 'trusted' for c in con.clauses):
             continue
+        tags = contract_tags(con)
+        if pid == 'C02':
+            if is_cache_method(con) and (tags & {'C01', 'C05', 'C06', 'C02'}):
+                tasks.append((tgt, 'intf'))
+            continue
         if not contract_serves(con, pid, spec.prog):
             continue
-        for m in contract_modes(con):
-            if m == 'intf' and pid not in INTF:
-                continue
-            if m == 'seq' and pid == 'C02':
-                continue
-            tasks.append((tgt, m))
+        tasks.append((tgt, 'seq'))
+        if pid in INTF and is_cache_method(con):
+            tasks.append((tgt, 'intf'))
     return tasks, []
 
 
